@@ -4,6 +4,9 @@
 package main
 
 import (
+	"golang.org/x/tools/go/ssa"
+	"path/filepath"
+	"go/types"
 	"fmt"
 	"os"
 	"runtime/debug"
@@ -97,6 +100,63 @@ func main() {
 		}
 		if bad > 0 {
 			os.Exit(1)
+		}
+	case "paramtable":
+		// regenerate /verif/tables/params.tsv (parameter positions of every module function)
+		w, err := Load(repoDir(), "")
+		if err != nil {
+			fmt.Fprintln(os.Stderr, err)
+			os.Exit(2)
+		}
+		var b strings.Builder
+		b.WriteString("# function<TAB>index<TAB>parameter name<TAB>type : lets a renamed parameter be recognised by position (see ssalib.go paramIs)\n")
+		for _, fn := range w.ModuleFuncs() {
+			for i, p := range fn.Params {
+				if p.Name() == "" || p.Name() == "_" {
+					continue
+				}
+				fmt.Fprintf(&b, "%s\t%d\t%s\t%s\n", shortName(fn), i, p.Name(), types.TypeString(p.Type(), nil))
+			}
+		}
+		if err := os.WriteFile(filepath.Join(verifDir(), "tables", "params.tsv"), []byte(b.String()), 0o644); err != nil {
+			fmt.Fprintln(os.Stderr, err)
+			os.Exit(2)
+		}
+		var lb strings.Builder
+		lb.WriteString("# function<TAB>phi|alloc<TAB>local name<TAB>ordinal among the function's named locals of that kind and type<TAB>type : lets a renamed local be recognised (ssalib.go phiIs / allocIs)\n")
+		for _, fn := range w.ModuleFuncs() {
+			pc, ac := map[string]int{}, map[string]int{}
+			seenP, seenA := map[string]bool{}, map[string]bool{}
+			for _, bb := range fn.Blocks {
+				for _, ins := range bb.Instrs {
+					switch q := ins.(type) {
+					case *ssa.Phi:
+						if q.Comment == "" || strings.HasPrefix(q.Comment, "range") || q.Comment == "&&" || q.Comment == "||" {
+							continue
+						}
+						t := types.TypeString(q.Type(), nil)
+						if !seenP[q.Comment] {
+							fmt.Fprintf(&lb, "%s\tphi\t%s\t%d\t%s\n", shortName(fn), q.Comment, pc[t], t)
+							seenP[q.Comment] = true
+						}
+						pc[t]++
+					case *ssa.Alloc:
+						if q.Comment == "" || q.Comment == "complit" || q.Comment == "varargs" {
+							continue
+						}
+						t := types.TypeString(q.Type(), nil)
+						if !seenA[q.Comment] {
+							fmt.Fprintf(&lb, "%s\talloc\t%s\t%d\t%s\n", shortName(fn), q.Comment, ac[t], t)
+							seenA[q.Comment] = true
+						}
+						ac[t]++
+					}
+				}
+			}
+		}
+		if err := os.WriteFile(filepath.Join(verifDir(), "tables", "locals.tsv"), []byte(lb.String()), 0o644); err != nil {
+			fmt.Fprintln(os.Stderr, err)
+			os.Exit(2)
 		}
 	case "mutate":
 		// mixvet mutate <ID> [jobs] [func-substr]: mutation sweep of the checker (development aid)
